@@ -353,6 +353,10 @@ def corpus():
 def run(ctx):
     ctx.source_hash("sigpy/conv.py", "sigpy/linop.py")
     proof_ok = ctx.prove("Prop_C08.v")
+    # tie by translation (DESIGN 2.8): gen/Gen_conv.v is regenerated from conv.py (translate_all job "conv") and compiled;
+    # its lemmas state generated == hand model (model/Conv.v) -- notes/translate_conv.md
+    from tools import translate_conv
+    tie_broken = translate_conv.tie(ctx)    # obligations "translate:sigpy/conv.py (...)", "tie:generated == hand model (...)"
     sp = core.import_sigpy()
     rng = ctx.rng
     nrng = np.random.default_rng(rng.randrange(2 ** 31))
@@ -499,12 +503,15 @@ def run(ctx):
             ctx.violation("C08: model and implementation disagree on %s" % d["cls"],
                           {"kind": "correspondence", "broken": "corr:" + d["cls"], "case": describe(d["case"])},
                           found_input=False, signature="C08:corr:" + d["case"]["op"])
-    if (not proof_ok or not corr_ok) and not ctx.violations:
-        broken = getattr(ctx, "broken_proof", {"theorem": "corr:coq-run", "log": ""})
+    if ((not proof_ok or not corr_ok) and not ctx.violations) or (tie_broken and not any(v["found_input"] for v in ctx.violations)):
+        broken = getattr(ctx, "broken_proof", tie_broken or {"theorem": "corr:coq-run", "log": ""})
         ctx.violation("proof obligation no longer checks: %s" % broken.get("theorem"), {"kind": "proof", "broken": broken},
                       found_input=False, signature="C08:proof")
     ctx.trusted += ["Coq 8.16.1 kernel + vm_compute (exact Gaussian-integer evaluation)",
-                    "hand model coq/model/Conv.v of sigpy.conv (and Linop.conv_params of _get_convolve_params), tied by this run's exact correspondence",
+                    "hand model coq/model/Conv.v of sigpy.conv (and Linop.conv_params of _get_convolve_params), tied by this run's exact correspondence "
+                    "and, since tools/translate_conv.py, by gen/Gen_conv.v: the CPU paths regenerated from the source text on every run with lemmas "
+                    "generated == hand model (the parameter function on a finite grid); what stays trusted is the translator's reading of the "
+                    "accepted Python fragment (notes/translate_conv.md)",
                     "recorded specifications of scipy.signal.convolve / correlate (sp_shape, sp_convolve_val, sp_correlate_val), compared with the real scipy in this run",
                     "numpy reshape / basic slicing semantics as modelled (Rearrange.reshape, strided slices, zero_stuff)"]
     ctx.proved += ["see coq/props/Prop_C08.v (theorem list in obligation_list): 1-D spatial axis with arbitrary batch shape and channels (multi_channel=True)"]
